@@ -531,6 +531,31 @@ def _mof_escaped(strvalue):
     return escaped_str
 
 
+def _mof_word_split_pos(escaped_str, split_pos):
+    """
+    Return the position of the last character of the first part when the
+    MOF-escaped string has to be split within a word at `split_pos`.
+
+    Normally that is `split_pos`. If the split would fall inside an escape
+    sequence (e.g. between the backslash and the quote of an escaped quote,
+    or within the hex digits of a backslash-x sequence), the position just
+    before that escape sequence is returned, so that each part is a complete
+    MOF string literal.
+    """
+    end = min(split_pos + 1, len(escaped_str))
+    i = 0
+    while i < end:
+        if escaped_str[i] == '\\':
+            # _mof_escaped() produces 2-char sequences and \xNNNN
+            seq_len = 6 if escaped_str[i + 1:i + 2] == 'x' else 2
+            if i + seq_len > end and i > 0:
+                return i - 1
+            i += seq_len
+        else:
+            i += 1
+    return split_pos
+
+
 def mofstr(value, indent=MOF_INDENT, maxline=MAX_MOF_LINE, line_pos=0,
            end_space=0, avoid_splits=False, quote_char='"'):
     """
@@ -633,8 +658,9 @@ def mofstr(value, indent=MOF_INDENT, maxline=MAX_MOF_LINE, line_pos=0,
         # Split the string and output the next part
         split_pos = value.rfind(' ', 0, avl_len)
         if split_pos < 0:
-            # We have to split within a word
-            split_pos = avl_len - 1
+            # We have to split within a word, but not within an escape
+            # sequence
+            split_pos = _mof_word_split_pos(value, avl_len - 1)
         part_value = value[0:split_pos + 1]
         value = value[split_pos + 1:]
         mof.append(quote_char)
